@@ -15,7 +15,7 @@ func TestC11(t *testing.T) {
 	mkdoc := func() map[string]any {
 		var d map[string]any
 		json.Unmarshal([]byte(`{"t":[{"id":1,"a":3,"g":"x","k":[{"v":1},{"v":5}]},{"id":2,"a":1,"g":"y","k":[{"v":2}]},{"id":3,"a":2,"g":"x","k":[]}],
-		 "r":[{"m":1,"w":"p"},{"m":3,"w":"q"}], "n":[[{"a":1},{"a":4}],[{"a":2}]]}`), &d)
+		 "r":[{"m":1,"w":"p"},{"m":3,"w":"q"}], "n":[[{"a":1,"k":[{"v":1}]},{"a":4,"k":[]}],[{"a":2,"k":[{"v":3}]}]]}`), &d)
 		return d
 	}
 	calls := 0
@@ -41,6 +41,12 @@ func TestC11(t *testing.T) {
 		"SELECT a FROM n WHERE a > 1",
 		"SELECT id FROM t ORDER BY a LIMIT 2 OFFSET 1",
 		"SELECT id FROM t UNION SELECT m FROM r",
+		"SELECT a, (SELECT v FROM k) AS s FROM n",
+		"SELECT a FROM n WHERE EXISTS (SELECT v FROM k WHERE v > 0)",
+		"SELECT x.id, y.m FROM (SELECT id, (SELECT v FROM k) AS s FROM t) x JOIN r y ON x.id = y.m",
+		"SELECT x.m, y.id FROM r x JOIN (SELECT id FROM t WHERE EXISTS (SELECT v FROM k)) y ON x.m = y.id",
+		"SELECT id, AWAIT((SELECT v FROM k)) AS s FROM t",
+		"SELECT id, (SELECT v FROM k) AS s, * FROM t",
 		"SELECT id, ZZFAIL() AS f FROM t WHERE a > 0",
 		"SELECT id, (SELECT v FROM k LIMIT 1) AS q, ZZFAIL() AS f FROM t",
 		"SELECT id FROM t WHERE EXISTS (SELECT v FROM k WHERE v > 1) AND ZZFAIL() = 1",
